@@ -29,6 +29,15 @@
 //! plus `+r-zero` / `+r-ge-n` when r is outside 1..n−1, and kind ∈
 //! {secp256k1-ok-k256-err, secp256k1-err-k256-ok, keys-differ, panic-<backend>}.
 //!
+//! Findings on the unchanged tree (each has exactly one key; anything else is new):
+//!   `C16:recover:high-s:secp256k1-ok-k256-err` — for n/2 < s < 2^255 and an r that is
+//!       recoverable, libsecp256k1 returns the key of the twin (r, n−s, !v) while k256
+//!       rejects (its recovery ends with a verification that refuses high s). `verify`
+//!       agrees (both reject high s). See `high_s_characterisation` in the evidence.
+//!   `C16:sign:msg-ge-n:outputs-differ` — when the 32-byte message is >= n as an
+//!       integer the RFC 6979 nonces differ (libsecp256k1 feeds the raw bytes, k256 the
+//!       value reduced mod n); both signatures are valid under both backends.
+//!
 //! Limit: this is not all 2^768 inputs; it is every ≤ D-fold combination of the
 //! boundary conditions at which ECDSA libraries are known to differ.
 
@@ -332,11 +341,18 @@ fn msg_bytes(c: &Consts, quick: bool) -> Vec<[u8; 32]> {
     for (i, b) in pat.iter_mut().enumerate() {
         *b = 0xf0 ^ (i as u8 * 7);
     }
-    let mut v = vec![[0u8; 32], b32(&Big::one()), [0xff; 32], pat];
+    let mut v = vec![
+        [0u8; 32],
+        b32(&Big::one()),
+        [0xff; 32],
+        pat,
+        b32(&c.n.sub(&Big::one())),
+        b32(&c.n),
+        b32(&c.n.add(&Big::one())),
+    ];
     if !quick {
         v.extend([
-            b32(&c.n.sub(&Big::one())),
-            b32(&c.n.add(&Big::one())),
+            b32(&c.half),
             b32(&Big::pow2(255)),
             vcore::oracle::sha256(&[b"fuel"]),
         ]);
@@ -355,8 +371,7 @@ struct Acc {
     evals: u64,
     fps: HashSet<u64>,
     outcomes: BTreeMap<String, u64>,
-    viols: Vec<(String, String, Value)>,
-    viol_keys: HashSet<String>,
+    viols: Vec<(String, String, Value, u64)>,
     samples: Vec<(u8, Value)>,
     // characterisation counters for the high-s class
     high_s_cases: u64,
@@ -377,8 +392,20 @@ impl Acc {
         *self.outcomes.entry(l.to_string()).or_insert(0) += 1;
     }
     fn viol(&mut self, key: String, what: String, case: Value) {
-        if self.viol_keys.insert(key.clone()) {
-            self.viols.push((key, what, case));
+        self.viol_n(key, what, case, 1)
+    }
+    fn viol_n(&mut self, key: String, what: String, case: Value, n: u64) {
+        if let Some(e) = self.viols.iter_mut().find(|e| e.0 == key) {
+            e.3 += n;
+        } else {
+            self.viols.push((key, what, case, n));
+        }
+    }
+    fn report(self, ctx: &Ctx) {
+        for (k, w, c, n) in self.viols {
+            for _ in 0..n {
+                ctx.violation(k.clone(), w.clone(), c.clone());
+            }
         }
     }
 }
@@ -621,8 +648,9 @@ fn eval_case(c: &Consts, key: &[u8; 32], msg: &[u8; 32], ts: &[T], acc: &mut Acc
 }
 
 /// sign / public_key comparison for one (key, message).
-fn eval_sign(key: &[u8; 32], msg: &[u8; 32], acc: &mut Acc) {
+fn eval_sign(c: &Consts, key: &[u8; 32], msg: &[u8; 32], acc: &mut Acc) {
     let sk = secret(key);
+    let mclass = if Big::from_be(msg) >= c.n { "msg-ge-n" } else { "msg-lt-n" };
     let m = Message::from_bytes(*msg);
     acc.evals += 1;
     let case = json!({"kind": "sign", "key": hex::encode(key), "msg": hex::encode(msg)});
@@ -648,7 +676,7 @@ fn eval_sign(key: &[u8; 32], msg: &[u8; 32], acc: &mut Acc) {
     let sbb = guard::catch_any(|| kb::sign(&sk, &m));
     match (&sa, &sbb) {
         (Ok(a), Ok(b)) if a == b => {
-            acc.out("sign:equal");
+            acc.out(&format!("sign:equal:{mclass}"));
             acc.fps.insert(hash64(&(a.to_vec(), msg)));
         }
         _ => {
@@ -657,19 +685,30 @@ fn eval_sign(key: &[u8; 32], msg: &[u8; 32], acc: &mut Acc) {
                 (_, Err(_)) => "panic-k256",
                 _ => "outputs-differ",
             };
-            acc.out(&format!("sign:DISAGREE:{kind}"));
+            acc.out(&format!("sign:DISAGREE:{mclass}:{kind}"));
             let f = |r: &Result<[u8; 64], String>| match r {
                 Ok(s) => hex::encode(s),
                 Err(m) => format!("PANIC({m})"),
             };
+            // informational: is each of the two signatures accepted by both backends?
+            let cross = |r: &Result<[u8; 64], String>| match (r, &pa) {
+                (Ok(s), Ok(pk)) => {
+                    let a = guard::catch_any(|| sb::recover(*s, &m).ok() == Some(*pk) && sb::verify(*s, **pk, &m).is_ok());
+                    let b = guard::catch_any(|| kb::recover(*s, &m).ok() == Some(*pk) && kb::verify(*s, **pk, &m).is_ok());
+                    format!("valid under secp256k1={a:?} k256={b:?}")
+                }
+                _ => "n/a".to_string(),
+            };
             acc.viol(
-                format!("C16:sign:{kind}"),
+                format!("C16:sign:{mclass}:{kind}"),
                 format!(
-                    "key={} msg={}: secp256k1 sign = {}, k256 sign = {}",
+                    "key={} msg={}: secp256k1 sign = {} ({}), k256 sign = {} ({})",
                     hex::encode(key),
                     hex::encode(msg),
                     f(&sa),
-                    f(&sbb)
+                    cross(&sa),
+                    f(&sbb),
+                    cross(&sbb)
                 ),
                 case,
             );
@@ -719,7 +758,7 @@ fn explore(ctx: &Ctx) {
     // sign / public_key on all bases (keys x messages)
     for k in &keys {
         for m in &msgs {
-            eval_sign(k, m, &mut total);
+            eval_sign(&c, k, m, &mut total);
         }
     }
 
@@ -785,9 +824,7 @@ fn explore(ctx: &Ctx) {
             "recover_disagreements_without_high_s": total.non_high_recover_disagree,
         }),
     );
-    for (k, w, cse) in total.viols {
-        ctx.violation(k, w, cse);
-    }
+    total.report(ctx);
 }
 
 fn merge(t: &mut Acc, p: Acc) {
@@ -796,8 +833,8 @@ fn merge(t: &mut Acc, p: Acc) {
     for (k, v) in p.outcomes {
         *t.outcomes.entry(k).or_insert(0) += v;
     }
-    for (k, w, c) in p.viols {
-        t.viol(k, w, c);
+    for (k, w, c, n) in p.viols {
+        t.viol_n(k, w, c, n);
     }
     for (s, v) in p.samples {
         if !t.samples.iter().any(|(x, _)| *x == s) {
@@ -834,12 +871,10 @@ fn replay(case: &Value, ctx: &Ctx) {
             let ts: Vec<T> = serde_json::from_value(case["ts"].clone()).expect("ts");
             eval_case(&c, &key, &msg, &ts, &mut acc);
         }
-        Some("sign") => eval_sign(&key, &msg, &mut acc),
+        Some("sign") => eval_sign(&c, &key, &msg, &mut acc),
         other => panic!("unknown case kind {other:?}"),
     }
-    for (k, w, cse) in acc.viols {
-        ctx.violation(k, w, cse);
-    }
+    acc.report(ctx);
 }
 
 fn main() {
